@@ -24,16 +24,16 @@ type Anchors struct {
 	// tree fields
 	FLocker, FCounters, FRootNode, FNotFound, FTrace, FHasTrace, FOptBuilder, FNABuilder, FInterceptors, FTreeName string
 
-	IndexBuilder       *ssa.Function // stores into node.indexes
-	NodeSummaryBuilder *ssa.Function // node method storing summary from a range over handlers
-	TreeSummaryBuilder *ssa.Function // Tree method storing root summary from counters
-	MemoBuilder        *ssa.Function // function that stores into the memo map
-	MemoVar            *types.Var    // package-level map int -> rendered entry
-	MethodTable        *types.Var    // package-level map string -> int
-	SegmentMatch       *ssa.Function // (*Segment).Match(*Context) bool
-	Backtrackers       []*ssa.Function
+	IndexBuilder                                                              *ssa.Function // stores into node.indexes
+	NodeSummaryBuilder                                                        *ssa.Function // node method storing summary from a range over handlers
+	TreeSummaryBuilder                                                        *ssa.Function // Tree method storing root summary from counters
+	MemoBuilder                                                               *ssa.Function // function that stores into the memo map
+	MemoVar                                                                   *types.Var    // package-level map int -> rendered entry
+	MethodTable                                                               *types.Var    // package-level map string -> int
+	SegmentMatch                                                              *ssa.Function // (*Segment).Match(*Context) bool
+	Backtrackers                                                              []*ssa.Function
 	TreeHandler, TreeAdd, TreeRemove, TreeClean, TreeRoutes, TreeURL, TreeNew *ssa.Function
-	NotAllowedKey      string // the constant key of the 405 entry ("")
+	NotAllowedKey                                                             string // the constant key of the 405 entry ("")
 }
 
 func lookupNamed(pkg *types.Package, name string) *types.Named {
@@ -263,13 +263,14 @@ func Resolve(p *an.Prog) *Anchors {
 			case *ssa.Store:
 				ap := an.AP(x.Addr)
 				if recvIsNode && ap == "recv."+a.FSummary {
-					// node summary builder ranges over the handlers
-					if rangesOver(f, "recv."+a.FHandlers) {
+					// node summary builder: computes the summary from the handler map (ranges over it, or hands it /
+					// its keys to a helper)
+					if rangesOver(f, "recv."+a.FHandlers) || mentions(f, "recv."+a.FHandlers) {
 						setFn(&a.NodeSummaryBuilder, f, "node summary builder")
 					}
 				}
 				if recvIsTree && ap == "recv."+a.FRootNode+"."+a.FSummary {
-					if rangesOver(f, "recv."+a.FCounters) {
+					if rangesOver(f, "recv."+a.FCounters) || mentions(f, "recv."+a.FCounters) || callsMentioning(f, "recv."+a.FCounters) {
 						setFn(&a.TreeSummaryBuilder, f, "tree summary builder")
 					}
 				}
@@ -277,14 +278,20 @@ func Resolve(p *an.Prog) *Anchors {
 		})
 	}
 	// the method table is the map[string]int the node summary builder looks its keys up in
-	if a.NodeSummaryBuilder != nil {
+	if len(tableCands) == 1 {
+		a.MethodTable = tableCands[0]
+	} else if a.NodeSummaryBuilder != nil {
+		g := an.NewGraph(p)
+		near := g.Reach([]*ssa.Function{a.NodeSummaryBuilder}, func(_ *ssa.Function, e an.Edge) bool { return e.Kind == "static" })
 		for _, v := range tableCands {
 			used := false
-			an.AllInstrs(a.NodeSummaryBuilder, func(in ssa.Instruction) {
-				if lk, ok := in.(*ssa.Lookup); ok && an.AP(lk.X) == "global:"+a.TreePkg.Name()+"."+v.Name() {
-					used = true
-				}
-			})
+			for fn := range near {
+				an.AllInstrs(fn, func(in ssa.Instruction) {
+					if lk, ok := in.(*ssa.Lookup); ok && an.AP(lk.X) == "global:"+a.TreePkg.Name()+"."+v.Name() {
+						used = true
+					}
+				})
+			}
 			if used {
 				if a.MethodTable != nil && a.MethodTable != v {
 					an.Fatalf("UNRESOLVED anchor: two method tables")
@@ -405,4 +412,32 @@ func (a *Anchors) Describe(r *an.Report) {
 		bt = append(bt, an.FuncKey(f))
 	}
 	r.Anchor("backtrackingMatchers", strings.Join(bt, ", "))
+}
+
+// mentions: some instruction of f has an operand with the given access path.
+func mentions(f *ssa.Function, ap string) bool {
+	found := false
+	an.AllInstrs(f, func(in ssa.Instruction) {
+		for _, op := range in.Operands(nil) {
+			if *op != nil && an.AP(*op) == ap {
+				found = true
+			}
+		}
+	})
+	return found
+}
+
+// callsMentioning: a static callee of f on the same receiver mentions the access path.
+func callsMentioning(f *ssa.Function, ap string) bool {
+	found := false
+	an.AllInstrs(f, func(in ssa.Instruction) {
+		if call := an.CallOf(in); call != nil {
+			if g := an.StaticCallee(call); g != nil && an.InModule(g) && len(call.Args) > 0 && an.AP(call.Args[0]) == "recv" && g != f {
+				if mentions(g, ap) || rangesOver(g, ap) {
+					found = true
+				}
+			}
+		}
+	})
+	return found
 }
